@@ -463,7 +463,7 @@ pub fn property() -> Property {
     Property {
         id: "C09",
         level: "exploration",
-        rule: "values: generated Any (all tags, NaN/inf/-0/2^53+-1/i64 extremes, astral strings, nesting <=5; binary in v1 and v2 streams, JSON text modulo its documented image), StateVector, delete set, Snapshot, StickyIndex (3 scopes x 2 assoc; binary v1/v2 and serde JSON), sync messages of every tag incl. custom tags 4..255 (one by one and concatenated through MessageReader), awareness updates; history-updates: every transaction update (v1 and v2 event), full state (v1/v2, with Skip/GC blocks and merged stash) of generated multi-replica histories: enc(dec(p)) is a fixpoint, v1->v2->v1 and v2->v1->v2 return the same bytes, original / re-encoded / cross-encoded forms applied to twin documents give equal dumps; builder: syntactically valid v1 payloads written byte by byte by the harness (all content kinds incl. foreign Binary and legacy JSON, origin/right-origin/parent(name|id)/parent_sub combinations, 53-bit clients, Skip and GC blocks, canonical layout) must decode, re-encode to the identical bytes, survive v2, and expose the described ids/dependencies; yjs-dataset: the Yjs-generated update sequences shipped in assets/ (quick: every 8th document, thorough: all) re-encode to a fixpoint and reproduce Yjs' expected text/map/array after re-encoding in either version.  Non-trivial = nested Any / >=2 messages / >=3 updates / >=2 blocks; distinct = distinct generated case or dataset document".into(),
+        rule: "values: generated Any (all tags, NaN/inf/-0/2^53+-1/i64 extremes, astral strings, nesting <=5; binary in v1 and v2 streams, JSON text modulo its documented image), StateVector, delete set, Snapshot, StickyIndex (3 scopes x 2 assoc; binary v1/v2 and serde JSON), sync messages of every tag incl. custom tags 4..255 (one by one and concatenated through MessageReader), awareness updates; history-updates: every transaction update (v1 and v2 event), full state (v1/v2, with Skip/GC blocks and merged stash) of generated multi-replica histories: enc(dec(p)) is a fixpoint, v1->v2->v1 and v2->v1->v2 return the same bytes, original / re-encoded / cross-encoded forms applied to twin documents give equal dumps; builder: syntactically valid v1 payloads written byte by byte by the harness (all content kinds incl. foreign Binary and legacy JSON, origin/right-origin/parent(name|id)/parent_sub combinations, 53-bit clients, Skip and GC blocks, canonical layout) must decode, re-encode to the identical bytes, survive v2, and expose the described ids/dependencies; idmaps: generated IdMap<String> (4 attribute names that come back after other names were introduced, several values per name, 53-bit clients, clocks up to u32::MAX) round-trip in v1, v2 and through v1->v2 / v2->v1 transcription; links: a document holding a quotation or link of every shape (source = root text / root array / text, array or map nested in the root map / XML text; inclusive, exclusive or unbounded ends; map-entry links) is shipped as full state (v1 or v2, and transcribed into the other version) and then as diffs after edits at the edges of the source: both receivers must read the quotation exactly as the sender does and show the same document; yjs-dataset: the Yjs-generated update sequences shipped in assets/ (quick: every 8th document, thorough: all) re-encode to a fixpoint and reproduce Yjs' expected text/map/array after re-encoding in either version.  Non-trivial = nested Any / >=2 messages / >=3 updates / >=2 blocks; distinct = distinct generated case or dataset document".into(),
         assumptions: vec![
             "Update equality is decided on re-encoded bytes and on effects (Update::eq compares ids only)".into(),
             "Embed and Format values travel as JSON text in lib0 v1 (as in Yjs): they are generated JSON-representable".into(),
